@@ -505,6 +505,39 @@ func (c *Cluster) WaitStable(timeout time.Duration, requireBalanced bool) error 
 	return fmt.Errorf("cluster did not stabilise in %v: %s", timeout, why)
 }
 
+// WaitPushFixpoint (manual mode) pushes the routing table - WITHOUT running the balancer - until nothing changes any more:
+// every live member sees every live member, and five consecutive pushes change no member's table.  The hand-over of the data
+// has not begun then; partitions may have previous owners.  Whether the members' tables AGREE at that fixpoint is for the
+// specification to judge: it is not a precondition here.
+func (c *Cluster) WaitPushFixpoint(timeout time.Duration) error {
+	deadline := time.Now().Add(timeout)
+	prev, same := "", 0
+	for time.Now().Before(deadline) {
+		c.Push()
+		live := c.Live()
+		var sb strings.Builder
+		ready := true
+		for _, m := range live {
+			t := m.Table(c.Opts.Partitions)
+			if len(t.Members) != len(live) {
+				ready = false
+			}
+			sb.WriteString(m.Name + "=" + t.String() + "|")
+		}
+		if s := sb.String(); ready && s == prev {
+			same++
+			if same >= 5 {
+				return nil
+			}
+		} else {
+			same = 0
+			prev = s
+		}
+		time.Sleep(40 * time.Millisecond)
+	}
+	return fmt.Errorf("pushing the routing table did not reach a fixpoint in %v", timeout)
+}
+
 // Stop stops a member: gracefully (Shutdown: leave broadcast, then stop) or abruptly (the member
 // disappears without telling anyone: memberlist is shut down without the leave message and the
 // RESP server closed).
